@@ -35,3 +35,95 @@ def tmod(name):
 
 def exc_viol(label, exc):
     return [(f"{label}-exception", f"{type(exc).__name__}: {exc}")]
+
+
+# ---------------------------------------------------------------------------
+# foreign workloads: the same monitors, driven by code that is not the property's own driver
+
+_Q = {}
+
+
+def _query_env(ctx, data_key):
+    """memory datastore with three populated buckets + the query registry (with the identity built-ins)"""
+    import random
+    from .. import qlang
+    from ..backends import Store
+    if _Q.get("key") != data_key:
+        if "reg" not in _Q:
+            _Q["reg"] = qlang.Registry()
+        st = Store("memory", ctx.tmp)
+        lo, hi = qlang.populate(st.ds, random.Random(data_key), 1_600_000_000_000_000)
+        _Q.update(st=st, lo=lo, hi=hi, key=data_key)
+    return _Q
+
+
+def run_query_case(case, ctx, mons):
+    """Runs one query text with the monitors installed; returns the violations they observed."""
+    import aw_query
+    from ..gen import mk_dt
+    env = _query_env(ctx, case["data_key"])
+    for m in mons.values():
+        m.violations = []
+    before = {n: (m.evaluations, m.out_of_domain) for n, m in mons.items()}
+    try:
+        aw_query.query("q", case["text"], mk_dt(env["lo"]), mk_dt(env["hi"]), env["st"].ds)
+        outcome = "value"
+    except Exception as ex:  # noqa: BLE001 - the query may fail; the monitors have seen the calls made before
+        outcome = type(ex).__name__
+    viols = []
+    reached = []
+    for n, m in mons.items():
+        ev, ood = m.evaluations - before[n][0], m.out_of_domain - before[n][1]
+        if ev:
+            reached.append(n)
+            ctx.count(f"query_workload.judged.{n}", ev)
+        if ood:
+            ctx.count(f"query_workload.out_of_domain.{n}", ood)
+        for kind, detail, _ in m.violations:
+            if kind == "oracle-error":
+                ctx.count("query_workload.oracle_errors")     # the oracle could not judge this input: not a verdict
+                continue
+            viols.append((f"in-query:{kind}", f"{detail} :: query={case['text']!r:.300}"))
+        m.violations = []
+    return viols, dict(sig=("query", tuple(sorted(reached)), outcome), nontrivial=bool(reached))
+
+
+def query_workload(ctx, mons, n, prop):
+    """n generated query programs run through aw_query.query while `mons` are installed."""
+    from .. import qlang
+    data_key = f"{prop}-query-data-{ctx.seed}-{ctx.widx}"
+    for _ in range(n):
+        if ctx.time_left() < 2:
+            break
+        g = qlang.ProgGen(ctx.rng, max_depth=ctx.rng.choice([2, 3, 4]))
+        text = qlang.render_program(g.program(), qlang.Spacing(ctx.rng))
+        case = dict(kind="query", text=text, data_key=data_key)
+        viols, info = run_query_case(case, ctx, mons)
+        ctx.record(case, viols, sig=info["sig"], nontrivial=info["nontrivial"])
+        ctx.count("query_workload.programs")
+
+
+def pytest_workload(ctx, prop):
+    """The repository's own test-suite with every function monitor on; this property's monitors are judged."""
+    import json
+    import os
+    import subprocess
+    import sys
+    repo = os.environ["AWVERIF_REPO"]
+    report = os.path.join(ctx.tmp, f"pytest-monitors-{os.getpid()}.json")
+    env = dict(os.environ, AWVERIF_PYTEST_REPORT=report)
+    r = subprocess.run([sys.executable, "-m", "pytest", "-q", "-x", "-p", "no:cacheprovider", "-p", "awverif.pytest_monitors",
+                        "--timeout=900"], cwd=repo, env=env, capture_output=True, text=True, timeout=1200)
+    if not os.path.exists(report):
+        ctx.count("pytest_workload.no_report")
+        return
+    doc = json.load(open(report))
+    for m in doc["monitors"]:
+        if m["property"] != prop:
+            continue
+        ctx.count(f"pytest_workload.judged.{m['function']}", m["evaluations"])
+        ctx.count(f"pytest_workload.out_of_domain.{m['function']}", m["out_of_domain"])
+        viols = [(f"in-repo-tests:{v['kind']}", v["detail"]) for v in m["violations"] if v["kind"] != "oracle-error"]
+        if m["evaluations"]:
+            ctx.record(dict(kind="repo-test-suite", function=m["function"]), viols, sig=("repo-tests", m["function"]),
+                       nontrivial=True, weight=m["evaluations"])
